@@ -29,6 +29,12 @@ static Arg edge_arg(int y, bool jan1) {
   Arg a; a.y = y; a.mo = jan1 ? 1 : 12; a.d = jan1 ? 1 : 31; a.h = jan1 ? 0 : 23; a.mi = 30; a.s = 0; a.sentinel = false;
   a.epoch = civil::epoch2000_from_fields(y, a.mo, a.d, a.h, a.mi, a.s); a.name = fmt("y%d%s", y, jan1 ? "jan1" : "dec31"); return a;
 }
+// the edges of the extended processor's 14-month window (Dec 1 of the previous year .. Feb 1 of the next): 00:30 UTC on
+// Dec 1 and 23:30 UTC on Jan 31, i.e. instants a neighbouring year's cache may or may not cover depending on the zone's offset
+static Arg window_arg(int y, bool dec1) {
+  Arg a; a.y = y; a.mo = dec1 ? 12 : 1; a.d = dec1 ? 1 : 31; a.h = dec1 ? 0 : 23; a.mi = 30; a.s = 0; a.sentinel = false;
+  a.epoch = civil::epoch2000_from_fields(y, a.mo, a.d, a.h, a.mi, a.s); a.name = fmt("y%d%s", y, dec1 ? "dec1" : "jan31"); return a;
+}
 static Arg raw_arg(const char* nm, int64_t epoch, int y, int mo, int d, int h, int mi, int s) {
   Arg a; a.name = nm; a.epoch = epoch; a.y = y; a.mo = mo; a.d = d; a.h = h; a.mi = mi; a.s = s; a.sentinel = false; return a;
 }
@@ -264,6 +270,7 @@ int main(int argc, char** argv) {
   for (int y = 1998; y <= 2051; y++) g_args.push_back(year_arg(y));
   // year-boundary instants: the basic processor serves Jan 1 (UTC) from the previous year's cache
   for (int y = 1999; y <= 2050; y++) { g_args.push_back(edge_arg(y, true)); g_args.push_back(edge_arg(y, false)); }
+  for (int y = 1999; y <= 2050; y++) { g_args.push_back(window_arg(y, true)); g_args.push_back(window_arg(y, false)); }
   g_args.push_back(year_arg(1997)); g_args.push_back(year_arg(2052));
   g_args.push_back(sentinel_arg());
   if (g_hostile) {
